@@ -34,8 +34,25 @@ for d in sorted(glob.glob(os.path.join(ROOT, "seeded", "*", "*"))):
                 res.append(f"**{chk}**: reported, no-failing-input-found")
             else:
                 res.append(f"**{chk}**: MISSED")
-    rows.append(f"| {p}/{m} | {summ.replace('|', '/')} | {'<br>'.join(res) if res else '(not run)'} |")
-table = ("| seeded change | what it does | verdict of the checks run against it |\n|---|---|---|\n" + "\n".join(rows) + "\n")
+    # the static ties against the translation of the changed source (tools/static_matrix.sh)
+    st = ""
+    sp = os.path.join(d, "static.txt")
+    if os.path.exists(sp):
+        t = open(sp).read().strip()
+        mm = re.match(r"unavailable: (.*?) \| broken: ?(.*)$", t)
+        if mm:
+            una = [g for g in mm.group(1).split() if g != "none" and re.search(r"[VA]D?$|^GrpPoll$|^Std$|^Dir$|^Idx$|^PS$|^Grp$|^Wait$", g)]
+            brk = [g for g in mm.group(2).split() if g != "none"]
+            parts = []
+            if brk:
+                parts.append("broken: " + ", ".join(b_.replace("KTie", "") for b_ in brk))
+            if una:
+                parts.append("outside the subset: " + ", ".join(una))
+            st = "; ".join(parts) if parts else "all check"
+        else:
+            st = t
+    rows.append(f"| {p}/{m} | {summ.replace('|', '/')} | {'<br>'.join(res) if res else '(not run)'} | {st} |")
+table = ("| seeded change | what it does | verdict of the checks run against it | tie theorems on the translated change |\n|---|---|---|---|\n" + "\n".join(rows) + "\n")
 p = os.path.join(ROOT, "DESIGN.md")
 s = open(p).read()
 a, b = "<!-- SEEDED-TABLE-BEGIN -->\n", "<!-- SEEDED-TABLE-END -->"
